@@ -8,6 +8,7 @@ Direct oracle (O) on the real classes:
     produces for the same typed value;
   * `Item.decode` of any valid encoding (also with more length bytes than needed; first accepted by the Lean reference `decodeAny`)
     re-encodes to the canonical bytes;
+  * an item built from a mutable container (list, nested list, bytearray) does not change when the container is edited afterwards;
   * `Item.from_value` picks BOOLEAN / A / B / L and for integers the narrowest U1..U8 (non-negative) or I1..I8 (negative), value unchanged.
 """
 from __future__ import annotations
@@ -147,6 +148,43 @@ def oracle_ctor(res, v, rng):
             res.violate("holds-other-value", "the item does not hold the value it was built from", case, K.show_val(v)[:200], K.show_val(held)[:200])
 
 
+def oracle_alias(res, tag, src_repr):
+    """an item built from a mutable container keeps its own copy: editing the container afterwards (append, overwrite with an
+    out-of-range value, clear) changes neither the held value nor the encoding"""
+    import copy
+    case = {"kind": "alias", "cls": tag, "src": src_repr}
+    src = eval(src_repr, {"bytearray": bytearray})  # noqa: S307 - a literal built by this harness
+    try:
+        it = K.ITEMCLS[tag](src)
+        held, enc = K.val_of_item(it), it.encode()
+    except Exception:  # noqa: BLE001
+        return          # not an accepted input form
+    bad = {"BOOLEAN": 2, "B": 300, "L": None}.get(tag, 10 ** 30 if tag not in ("F4", "F8") else "x")
+
+    def edits(c):
+        yield "append", (lambda: c.append(copy.deepcopy(c[0]) if len(c) else 0))
+        if len(c):
+            yield "overwrite", (lambda: c.__setitem__(0, bad))
+        yield "clear", (lambda: c.clear() if hasattr(c, "clear") else None)
+    targets = [("source", src)] + [(f"source[{i}]", x) for i, x in enumerate(src) if isinstance(x, (list, bytearray))] if isinstance(src, list) else [("source", src)]
+    for where, container in targets:
+        for name, edit in edits(container):
+            try:
+                edit()
+            except Exception:  # noqa: BLE001
+                continue
+            try:
+                now, enc2 = K.val_of_item(it), it.encode()
+                same = now == held and enc2 == enc
+                got = K.show_val(now)[:200]
+            except Exception as exc:  # noqa: BLE001
+                same, got = False, f"{type(exc).__name__}: {exc}"
+            if not same:
+                res.violate("aliases-constructor-argument", f"{tag} item changed after its constructor argument was edited ({name} on {where})",
+                            dict(case, edit=name, where=where), K.show_val(held)[:200], got)
+                return
+
+
 def oracle_decode(res, v, data: bytes, ref_val=None):
     """`data` is a valid E5 encoding of v (any number of length bytes): decode, re-encode = canonical"""
     case = {"kind": "decode", "val": js(v), "data": data.hex()}
@@ -218,6 +256,8 @@ def replay_case(res, case):
     elif k == "ctor":
         oracle_ctor(res, unjs(case["val"]), hlib.Rng(1))
         oracle_ctor(res, unjs(case["val"]), hlib.Rng(2))
+    elif k == "alias":
+        oracle_alias(res, case["cls"], case["src"])
     elif k == "decode":
         oracle_decode(res, unjs(case["val"]), bytes.fromhex(case["data"]))
     elif k == "from":
@@ -470,6 +510,27 @@ def main():
         res.bump("ctor_input_form", p[0])
         res.bump("ctor_outcome", "ok" if ans.startswith("ok") else ans)
     hlib.compare_batch(res, drv, "Item constructors (validate_value) vs Model.Item.construct", cases, lines, answers)
+
+    # aliasing: every constructor input form that is a mutable container
+    for tag in TAGS:
+        forms = []
+        if tag in K.INTS:
+            lo, hi = K.int_range(tag)
+            forms = [[1, 2, 3], [hi], [lo, 0], []]
+        elif tag in ("F4", "F8"):
+            forms = [[1.5, -2.0], [0.0], []]
+        elif tag == "B":
+            forms = [[1, 2, 3], [b"ab", 7], [255], [], bytearray(b"ab")]
+        elif tag == "BOOLEAN":
+            forms = [[True, False], [1, 0, 1], []]
+        elif tag == "L":
+            forms = [[1, "a", b"x"], [[1, 2], [3]], [[[]], 5], [], [[True], [1.5, 2.5]]]
+        elif tag in ("A", "J"):
+            forms = [bytearray(b"ab")]
+        for f in forms:
+            oracle_alias(res, tag, repr(f))
+            res.count(("alias", tag, repr(f)))
+            res.bump("alias_probe", tag)
 
     # ------------------------------------------------------------------ D. from_value
     cases, lines, answers = [], [], []
